@@ -45,6 +45,13 @@ P = {
  "C10": ("runtime monitor: textbook definition of the six modes over exact rationals; exhaustive small grid for the public rounding primitives",
          "Runtime monitoring of FBig trunc/floor/ceil/round/fract/split_at_point/to_int/with_precision and Repr::to_int (6 modes x 4 bases, values from integers to far below 1/B), RBig/Relaxed rounding, and Round::round_fract/round_ratio: exhaustive over bases 2/3/10/16 x 1..3 fraction digits x integer -4..4 x every numerator x 6 modes, plus random triples with fractions at/around one half up to 20000-digit precisions.",
          "Ties in round() are away from zero as documented.", "DESIGN.md §4 C10"),
+
+ "C04": ("history-based differential runtime monitor: RBig, Relaxed twin and num-rational shadow in lock-step, canonical-form invariant on every value produced",
+         "Runtime monitoring of operation histories over a pool of rationals: + - * / % neg abs sqr cubic pow inv, integer operands on either side, Euclidean division family, in-place forms, relax/canonicalize; operands share factors with pool members (gcd-hint and cross-cancellation paths); every RBig ever produced is checked for lowest terms / positive denominator / 0 as 0/1, the Relaxed twin for value equality, division by zero for a panic.",
+         "Trusts num-rational; % is judged by the nearest-remainder contract pinned by the test-suite.", "DESIGN.md §4 C04"),
+ "C18": ("runtime monitor with independent optimality oracles: continued-fraction 'simplest in interval' (self-tested against brute force each run), brute-force Farey neighbours, own IEEE / digit rounding reference for 'converts back'",
+         "Runtime monitoring of is_simpler_than, simplest_in (equal, swapped, negative, straddling, zero and integer endpoints, very narrow intervals), next_up/next_down/nearest against brute force over every denominator up to the limit, simplest_from_f32/f64 over powers of two, subnormals and random patterns, and simplest_from_float over 3 bases x 6 modes incl. power-of-base boundaries: the result must convert back to the same float and equal the simplest fraction of the exact rounding interval.",
+         "nearest()'s sign convention follows its doc-test; ties may resolve either way.", "DESIGN.md §4 C18"),
 }
 NOT_YET = "monitor not built yet in this round (design in DESIGN.md §4); no claim is made until its check exists and is silent on the unchanged tree"
 
